@@ -1339,12 +1339,11 @@ class Session:
                 ediv=self.peer_ediv,
                 rand=self.peer_rand,
             )
-            if self.is_initiator:
-                keys.ltk_central = peer_ltk_key
-                keys.ltk_peripheral = our_ltk_key
-            else:
-                keys.ltk_central = our_ltk_key
-                keys.ltk_peripheral = peer_ltk_key
+            # The key received from the peer is the one to use when we are the
+            # central, the key we distributed is the one the peer will use when we
+            # are the peripheral, whichever role we had during pairing.
+            keys.ltk_central = peer_ltk_key
+            keys.ltk_peripheral = our_ltk_key
         if self.peer_identity_resolving_key is not None:
             keys.irk = PairingKeys.Key(
                 value=self.peer_identity_resolving_key, authenticated=authenticated
